@@ -32,3 +32,126 @@ claim("C05",
       "equal the RFC tables. The solver ranges over all values inside each harness's bounds, which sampling cannot.",
       "Outside the claim: that match finders (longest_match, medium/slow) never propose a distance beyond max_dist; full-size dynamic trees; "
       "whole-stream composition beyond the kernels listed in the evidence.")
+
+claim("C01",
+      "Compositional, bounded: (a) level 0 end to end: one deflate_stored call on a typed state, every input of 0..=6 bytes, every output "
+      "space and flush mode, decoded by a stored-block reference parser back to the input; (b) level 1 end to end: deflate() with "
+      "deflate_quick on every input of concrete length 1 and 3 (thorough: 5), decoded by a fixed-Huffman reference decoder back to the "
+      "input; (c) every static symbol the encoder can emit is the RFC code (KD1/KD2) and every fixed-table entry the decoder uses is the "
+      "RFC code (KI5d), so encoder and decoder agree symbol by symbol; (d) the real decoder decodes stored blocks and fixed symbols exactly "
+      "(KI5c/KI5d); (e) reset leaves no state behind (KD10).",
+      "Outside the claim: levels 2-9 and the Huffman-only/RLE/Filtered strategies (dynamic trees: build_tree over 286 symbols is beyond "
+      "reach), inputs long enough to slide the window, multi-call schedules beyond one call, deflateParams mid-stream, windowBits/memLevel "
+      "sweeps. A change confined to fast/medium/slow/longest_match is not detectable by this check.")
+claim("C02",
+      "Bounded model checking of every decoder kernel with CBMC's pointer, bounds, overflow, unwrap and assertion checks plus canaries "
+      "around every caller buffer, unwinding assertions as the termination argument: bit reader (any split, refill precondition), writer "
+      "copy primitives at chunk widths 8 and 32, window ring, every gzip/zlib header mode with capture buffers of every announced capacity "
+      "(incl. 0 and NULL), block layer (TypeDo, Stored/CopyBlock, Table, LenLens), symbol decoding on the fixed tables through both copies "
+      "of the code, Match step with every (length, offset, window state), trailer modes, inflate() prologue/epilogue, inflateBack's "
+      "distance handling. One step from an arbitrary valid state covers histories of any length for that step.",
+      "Outside: compositions longer than one suspension; dynamic-table construction (inflate_table is cut out of decoder steps and checked "
+      "separately at reduced alphabets in the thorough tier); the inflate_fast loop (checked stub: reaching it fails the harness); SIMD "
+      "intrinsic paths (the generic chunked code at N = 32 is what is covered).")
+claim("C03",
+      "Bounded: the validators are decided against predicates transcribed from RFC 1950/1951/1952: zlib header (CM, CINFO vs configured "
+      "window, FCHECK, FDICT), gzip method/reserved flags, BFINAL/BTYPE, LEN/NLEN, HLIT/HDIST limits, code-length order, every fixed "
+      "literal/length/distance code incl. the invalid codes 286/287/30/31, distance-too-far verdict (rejected iff distance > output so far + "
+      "window), trailer verdicts; LENFIX/DISTFIX equal the RFC table for all 512+32 indices.",
+      "Outside: whole-stream acceptance (only per-validator exactness), dynamic Huffman tables at full alphabet size, 'bytes emitted before a "
+      "rejection match reference zlib' (needs the C reference).")
+claim("C04",
+      "Bounded: split invariance of the bit reader (same bits whether delivered in one slice or cut at any point); every decoder step "
+      "harness starts from an arbitrary suspended state (arbitrary bits in the register, arbitrary progress counters) and asserts that "
+      "suspension consumes exactly the available input and keeps the progress needed to resume (CopyBlock, Extra/Name/Comment, LenLens, "
+      "LenExt/Dist/DistExt, Match partial copies); the result of a step is asserted as a function of the bits alone, independent of how "
+      "they arrived; flush modes only decide where a call returns (Type/TypeDo/Len_), not the state reached; inflate() reports BufError "
+      "exactly when nothing moved or Finish could not complete.",
+      "Outside: schedules of more than one suspension per harness, cuts inside dynamic-table construction; equality of two whole runs is "
+      "argued by induction over steps, not decided by the solver.")
+claim("C06",
+      "Bounded: deflate()'s status machine with the compress function replaced by a contract stub: every level x strategy x flush, documented "
+      "statuses only, duplicate-flush rule, Finish under starved output (1..=3 bytes per call) reaches StreamEnd in at most 11 calls and "
+      "every call makes progress; the real level-0 and level-1 paths never trip an assertion (Pending::extend capacity, fill_window "
+      "asserts) for every input within bounds; deflatePrime for every i32 bits/value; params/tune/set_header/pending for every integer "
+      "argument; reset from an arbitrary state; allocation-failure path of deflateCopy.",
+      "Outside: Pending::extend capacity inside block emission for levels >= 2 (depends on lit_bufsize accounting over whole blocks); "
+      "multi-call histories beyond the bounds listed per harness.")
+claim("C07",
+      "Bounded and narrow: for level 0 (every input of 0..=6 bytes at w_size 16) and level 1 (every input of length 1 and 3; thorough: 5) a "
+      "single Finish call into a buffer of deflateBound size ends with StreamEnd and produced <= bound, with both sides being the real code; "
+      "Engine B decides the arithmetic of compress_bound_help / deflate_quick_overhead (no wrap-around below 2^32, monotone, >= source_len "
+      "+ wrapper + block overhead).",
+      "Outside: levels >= 2, Z_FIXED / Z_HUFFMAN_ONLY worst cases, long inputs (the per-block overhead argument needs whole-block runs), "
+      "gzip headers and dictionaries beyond the wrapper-length arithmetic.")
+claim("C08",
+      "Bounded: from the trailer modes with an arbitrary running checksum, arbitrary output bytes of the current call and arbitrary trailer "
+      "bytes, StreamEnd is returned only if checking is disabled (validate(false)) or the trailer equals the checksum of the output folded "
+      "onto the running value (Adler-32 big endian with the real adler32; CRC little endian + ISIZE = total mod 2^32); the header CRC verdict "
+      "compares the low 16 bits of the running header CRC, which accumulates exactly the header bytes consumed, in order; inflate()'s epilogue "
+      "folds every produced byte exactly once (fused window copy, all size classes of Window::extend).",
+      "In the gzip/CRC harnesses the braid kernel is replaced by a byte-wise fold model (which bytes, from which start, in which order is the "
+      "subject); that the real crc32/adler32 equal their definitions is C09. Outside: per-call outputs >= 32 KiB at the production window "
+      "size (the len >= wsize branch is covered at W = 4/8: the code is parametric in the window length).")
+claim("C10",
+      "Bounded 2-safety by self-composition: the copy primitives give identical results at chunk width 8 and 32 and never depend on bytes "
+      "beyond `filled`; Window::extend depends only on the slices; deflate reset: no stale scalar survives from an arbitrary previous state "
+      "(and head[] is cleared); inflate reset likewise.",
+      "Not decided: CPU-feature dispatch through intrinsics (compare256/adler/crc SIMD variants: Kani has no model of the intrinsics), the "
+      "relaxed-atomic feature cache, anything about threads (Kani does not model concurrency), buffer address/alignment effects beyond the "
+      "symbolic offsets inside the harness arrays.")
+claim("C11",
+      "Bounded: after Partial/Sync/Full/Block flush with room, deflate() appends the RFC marker (empty static block / byte-aligned 00 00 FF FF), "
+      "Full flush clears the hash head and resets positions, duplicate flushes are refused without output; level 0: everything consumed is "
+      "decodable from the output after a flush; level 1: the open block is closed, the prefix decodes to all input, marker follows, register "
+      "byte aligned; starved completion over later calls.",
+      "Outside: deflate_slow's deferred literal and deflate_medium (levels >= 3): only their contract with deflate() is assumed.")
+claim("C13",
+      "Bounded, protocol only: zlib header announces FDICT + DICTID = stream.adler (big endian) for every level/strategy; the decoder goes "
+      "Head -> DictId -> Dict and reports NeedDict with the big-endian identifier; inflateSetDictionary accepts exactly a dictionary whose "
+      "Adler-32 (RFC recurrence) equals the identifier, rejects others with DataError, refuses wrapped streams outside Dict mode; "
+      "inflateGetDictionary returns exactly the last min(total, W) bytes in stream order for every ring state.",
+      "Outside: dictionary-assisted round trips (matches into the dictionary), deflateSetDictionary's hash insertion over >= 512 positions, "
+      "dictionaries >= window size on the deflate side.")
+claim("C14",
+      "Bounded: reset == fresh for deflate (every scalar field, head[] cleared, pending discarded, trees re-initialised) and inflate "
+      "(reset_with_config from an arbitrary state vs a freshly constructed state, for every i32 windowBits); failed copies leave the "
+      "destination without a state (no aliasing of the source).",
+      "Outside: the success path of deflateCopy/inflateCopy (State is written into a u8 allocation: not encodable, DESIGN.md §1) and "
+      "therefore 'copied streams behave identically and independently' is NOT decided.")
+claim("C15",
+      "Bounded: inflate(): next/avail/total deltas equal bytes moved for every (avail_in, avail_out, flush) around a stored block, no "
+      "underflow, BufError exactly when nothing moved or Finish could not complete; deflate level 0: cursor/total deltas exact incl. the "
+      "direct copy; deflate() totals over header/marker/trailer calls; bit reader gives back exactly the unused whole bytes; inflateSync "
+      "advances exactly past the marker.",
+      "Outside: totals across long histories (follows from per-call exactness by induction, not decided); the one-shot helpers' "
+      "length outputs (they go through init(), not encodable).")
+claim("C16",
+      "Bounded, rule tables transcribed from zlib.h / the vendored zlib-ng source: argument validation and status of inflatePrime, "
+      "inflateSync, inflateSyncPoint, inflateValidate, inflateUndermine, inflateMark, inflateGetHeader, inflateResetKeep/Reset2 (every "
+      "i32 windowBits), inflateSetDictionary, deflatePrime (every bits/value), deflateParams (every level), deflateTune, deflateSetHeader, "
+      "deflatePending; none of them can abort.",
+      "The oracle is my transcription of the rules (trusted base). Outside: data-movement equality with zlib-ng, multi-call programs, the "
+      "libz-rs-sys NULL-pointer wrappers (thin, exercised by the pinned null.rs tests).")
+claim("C18",
+      "Bounded: the allocator shim for every misalignment of the user block (k < 64), size and alignment: pointer aligned and inside the "
+      "block, stash word below it, exactly one zfree with the original pointer and the same opaque; oversized requests refused before "
+      "zalloc; failed deflateCopy: MemError, one zalloc, no zfree, destination left without state.",
+      "Outside: balanced alloc/free over successful histories (init/copy success paths are not encodable), the gz layer.")
+claim("C19",
+      "Bounded: inflateBack on a typed stream with a 256-byte window, concrete 8-byte prefix (final fixed block, six literals, length-3 "
+      "code) + 2 symbolic bytes = every distance code and extra bits: no access outside the window (typed local object), documented status, "
+      "too-far distances rejected with the literals still delivered, in-window matches produce the LZ77 bytes inflate would; plus the "
+      "inflateBack copy primitive (copy_match_back) for every (filled, offset, length).",
+      "Outside: dynamic blocks, stored blocks, inflate_fast_back (>= 15 input bytes), window sizes other than 256, callback slicing into "
+      "more than one slice, output-callback abort.")
+claim("C20",
+      "Bounded: read side: every gzip header mode with capture buffers: text/time/xflags/os/extra_len/hcrc equal the stream's fields, "
+      "extra/name/comment copied exactly up to the announced capacity (0..=4 inside canaried 8-byte buffers, or NULL) at the right "
+      "offsets across calls, absent fields reported absent, done == 1 only when the whole header was parsed (incl. header CRC verdict). "
+      "Write side: deflateSetHeader only for gzip streams.",
+      "Outside: the write side's field emission under tiny output chunks (KD7 gzip harness not built yet) and fields longer than the bounds "
+      "(length-uniform loops/memcpys).")
+claim("C09",
+      "Bounded, scalar implementations only: see evidence for the kernels that terminated.",
+      "Outside: AVX2/AVX-512 Adler, PCLMULQDQ/VPCLMULQDQ folding (no model of the intrinsics in Kani).")
